@@ -278,9 +278,56 @@ def relevant(hist, obs):
     return False
 
 
+def reboot_window(version, node_version, ptype):
+    """node presented, a firmware update scheduled, a set message (answered with a reboot request), the node
+    presents itself again with library version `node_version` as node type `ptype`, another set message.
+    Returns (reply to the first set, reply to the second set) or a text when something raised."""
+    from . import persist_util as pu
+    gw = pu.make_gateway(version)
+    try:
+        gw.logic(f"1;255;0;0;17;{version}\n")
+        gw.logic("1;0;0;0;3;\n")
+        gw.tasks.ota.make_update([1], 1, 1, bytes(range(64)))
+        first = gw.logic("1;0;1;0;2;1\n")
+        gw.logic(f"1;255;0;0;{ptype};{node_version}\n")
+        second = gw.logic("1;0;1;0;2;0\n")
+    except Exception as exc:  # noqa: BLE001
+        return f"raised {type(exc).__name__}: {exc}"
+    return first, second
+
+
+def reboot_window_part(res):
+    """Real code only (pre-release library versions are outside the model's version grammar): the reboot
+    requests stop when the node has presented itself again, whatever valid library version and node type the
+    presentation carries."""
+    from . import c03
+    spec = c03.load_spec()
+    for version in ("1.4", "1.5", "2.0", "2.1", "2.2"):
+        for nv in ("2.3.2", "2.2.0-beta", "2.4.0-alpha", "2.0.0-rc.1+build.7", "1.4.1", "v2.2"):
+            for ptype in (17, 18):
+                if c03.spec_accepts(spec, version, 1, 255, 0, 0, ptype, nv) is not True:
+                    continue
+                got = reboot_window(version, nv, ptype)
+                res.evaluations += 1
+                res.count("reboot-window")
+                bad = None
+                if isinstance(got, str):
+                    bad = got
+                elif got[0] != "1;255;3;0;13;\n":
+                    bad = f"the set message of the scheduled node was answered with {got[0]!r}, not a reboot request"
+                elif got[1] is not None:
+                    bad = f"after the node presented itself again its set message is still answered with {got[1]!r}"
+                if bad:
+                    res.oracle_failures.append({
+                        "key": {"kind": "reboot-window", "what": "raised" if isinstance(got, str) else "reply"},
+                        "replay": {"op": "reboot-window", "version": version, "node_version": nv, "ptype": ptype},
+                        "what": f"gateway {version}, node presenting again as type {ptype} with library version {nv!r}: {bad}"})
+
+
 def run(tier, seed, driver):
     with _Patched():
         res = gwfam.run_family("C10", tier, seed, driver, CFG, relevant)
+    reboot_window_part(res)
     res.rule = ("state-aware random histories over all versions/kinds biased to update calls (single ids, lists, unknown "
                 "ids, missing image, out-of-range type/version), stream requests (well-formed, truncated, non-hex, other "
                 "type/version, out-of-range index, other sub-types), set messages, node presentations, smart-sleep "
@@ -292,6 +339,11 @@ def run(tier, seed, driver):
 
 
 def replay(payload):
+    r = payload.get("replay") or {}
+    if r.get("op") == "reboot-window":
+        got = reboot_window(r["version"], r["node_version"], r["ptype"])
+        print("replies to the set messages before / after the second presentation:", got)
+        return 0 if not isinstance(got, str) and got[0] == "1;255;3;0;13;\n" and got[1] is None else 1
     with _Patched():
         return gwfam.replay_family("C10", payload)
 
